@@ -15,6 +15,7 @@ from ..core import Law
 from .. import gen
 from ..gen import fl
 from ..num import mink, proj_dist
+from ..oracles import hyp as HY
 
 from geometry_tools import hyperbolic, projective
 
@@ -162,6 +163,14 @@ class Spec:
             flat[0, 0, :] = 0.0
             flat[0, 0, :3] = [5.0, 3.0, 4.0]
             P = flat.reshape(tuple(shape) + self.unit)
+        if int(abs(vals[1]) * 1009) % 3 == 0:
+            # other representatives of the same points: negative and non-unit factors, row by
+            # row (for a tangent vector: of the basepoint - the pair (-p, v) is the direction
+            # -v at p, and stays that direction whatever is queried)
+            f = np.array([-1.7, 0.6, -0.4, 2.5, -1.0])
+            flat = P.reshape((-1, self.n + 1))
+            flat = flat * f[np.arange(flat.shape[0]) % 5][:, None]
+            P = flat.reshape(P.shape)
         if self.name == "tangent":
             # second row is an arbitrary ambient vector (not a point)
             V = P.copy()
@@ -365,6 +374,7 @@ def run_history(case, ctx):
     spec = Spec(name, n, k)
     pool = []
     kept = []        # (array handed to the library, private copy)
+    kept_exact = []  # the same for arrays of model coordinates: compared entry by entry
     labels_mut = False
     read_after_mut = False
     max_rank = 0
@@ -400,6 +410,10 @@ def run_history(case, ctx):
                 ctx.check(k0.shape == k1.shape, "query %s keeps the shape" % what)
                 ctx.close("query %s does not move the object's points" % what, k1, k0,
                           rtol=0, atol=max(e.tol, 1e-12) * 10)
+        for (arr, priv) in kept_exact:
+            ctx.check(arr.shape == priv.shape and np.array_equal(arr, priv),
+                      "caller's array of model coordinates is unchanged (%s)" % what,
+                      got=arr, want=priv)
         for (arr, priv) in kept:
             ctx.check(arr.shape == priv.shape, "caller array keeps its shape")
             if spec.name == "tangent":
@@ -421,6 +435,8 @@ def run_history(case, ctx):
         # .T - or be a strided view; readonly is left out because `kept` arrays are compared
         # and queries normalise the library's own copy only)
         arr = gen.flavoured(arr, LAYOUTS[int(abs(vals[2]) * 997) % len(LAYOUTS)])
+        if keep is None:
+            return arr
         if keep:
             kept.append((arr, arr.copy()))
             return arr
@@ -435,9 +451,29 @@ def run_history(case, ctx):
         ctx.label("op=" + op)
         if op == "construct":
             shape = SHAPES[kk % len(SHAPES)]
-            arr = fresh(vals, shape, off=i % 5)
-            obj = spec.build(arr)
-            add(Entry(obj), j)
+            arr = fresh(vals, shape, off=i % 5, keep=None)
+            Kc = klein_of(arr) if spec.name not in ("tangent", "ppolygon") else None
+            if Kc is not None and int(abs(vals[3]) * 991) % 3 == 0 and \
+                    np.all(np.sum(Kc * Kc, axis=-1) < 0.97):
+                # the points given by their coordinates in another model, the way a user who
+                # works in the disk or the half-plane builds them: the array of coordinates
+                # is the caller's and stays exactly what it was
+                model = ("klein", "poincare", "halfspace")[int(abs(vals[4]) * 887) % 3]
+                ctx.label("construct-from-" + model)
+                marr = gen.flavoured(np.array(HY.klein_to_model(Kc, model), dtype=float),
+                                     LAYOUTS[int(abs(vals[2]) * 997) % len(LAYOUTS)])
+                kept_exact.append((marr, marr.copy()))
+                pts = hyperbolic.Point(marr, model=model)
+                obj = pts if spec.name == "hpoint" else spec.cls(pts)
+                ctx.check(np.array_equal(marr, kept_exact[-1][1]), "constructing from model "
+                          "coordinates leaves the caller's array unchanged", model=model)
+                ctx.close("object built from %s coordinates has those points" % model,
+                          klein_of(obj.proj_data), Kc, rtol=0, atol=1e-12)
+                add(Entry(obj), j)
+            else:
+                kept.append((arr, arr.copy()))
+                obj = spec.build(arr)
+                add(Entry(obj), j)
         elif op == "construct_int":
             # integer-typed primary data: the derived data is computed from the same values
             # (the object itself is only converted, not queried: in-place normalisation of
@@ -557,6 +593,25 @@ def run_history(case, ctx):
                 add(Entry(Z, e.tol), j)
                 labels_mut = True
             elif op == "getitem":
+                if spec.name in ("hpolygon", "ppolygon") and spec.k >= 4 and kk % 3 == 0:
+                    # an index that reaches into the vertex axis selects a sub-polygon: the
+                    # polygon on those vertices, whose closing edge runs from its own last
+                    # vertex to its own first one
+                    sel = [slice(0, 3), slice(None, None, 2), slice(1, None)][j % 3]
+                    idx = (slice(None),) * len(shape) + (sel,)
+                    sub = X[idx]
+                    SP = np.asarray(sub.proj_data)
+                    ctx.close("index into the vertex axis selects those vertices", SP,
+                              np.asarray(X.proj_data)[idx], rtol=0, atol=0)
+                    SA = np.asarray(sub.aux_data)
+                    ctx.check(SA.shape == SP.shape[:-1] + (2, n + 1), "edges of the sub-polygon: "
+                              "shape", got=SA.shape, want=SP.shape[:-1] + (2, n + 1))
+                    ctx.small("sub-polygon: edge i starts at its vertex i",
+                              proj_dist(SA[..., 0, :], SP), max(e.tol, 1e-12))
+                    ctx.small("sub-polygon: edge i ends at its vertex i+1 (cyclically)",
+                              proj_dist(SA[..., 1, :], np.roll(SP, -1, axis=-2)),
+                              max(e.tol, 1e-12))
+                    ctx.label("getitem-into-vertex-axis")
                 if len(shape) >= 1:
                     kinds = [lambda: j % shape[0], lambda: slice(0, 1 + j % shape[0]),
                              lambda: slice(None, None, -1)]
